@@ -43,7 +43,7 @@ def build_world(prop, plan):
     srv = scn.server('o1', '10.0.0.1', 80)
     maxv = {}
     for u, url in enumerate(plan['urls']):
-        nver = len(url.get('bumps', [])) + 1
+        nver = url.get('nver') or (len(url.get('bumps', [])) + 1)
         maxv[u] = nver
         scn.line('')  # keep layout readable
         for v in range(1, nver + 1):
@@ -76,6 +76,8 @@ def build_world(prop, plan):
                 r.add('send %s pace 0 %d' % (enc.token(), url['body_pace']))
             else:
                 r.add('send %s' % enc.token())
+            if url.get('bump_on_serve') and v < nver:
+                r.add('set cur%d %d' % (u, v + 1))   # every full response is a unique version
     adm = scn.client('admin', noready=True)
     for u in range(len(plan['urls'])):
         adm.add('set cur%d 1' % u)
